@@ -522,6 +522,12 @@ def value_cases(bf, t, conds=(), depth=0):
         c_, v_ = t[2]
         return value_cases(bf, ('agg', 'core::option::Option::Some', (('0', v_),)), conds + [(c_, (1,), None)], depth + 1) + \
             [(('agg', 'core::option::Option::None', ()), conds + [(c_, (0,), None)])]
+    if t[0] == 'call' and isinstance(t[1], str) and t[1].endswith('Option::unwrap_or') and len(t[2]) == 2:
+        # opt.unwrap_or(d): the Some payload when opt is Some, d otherwise (d is evaluated either way - the value is the same)
+        opt, dflt = t[2]
+        is_some = ('call', 'core::option::Option::is_some', (('ref', opt),), None)
+        return value_cases(bf, ('field', ('as', opt, 'Some'), '0'), conds + [(is_some, (1,), None)], depth + 1) + \
+            value_cases(bf, dflt, conds + [(is_some, (0,), None)], depth + 1)
     if t[0] == 'call' and isinstance(t[1], str) and t[1].endswith('Option::map') and len(t[2]) == 2 and isinstance(t[2][1], tuple) and t[2][1][:1] == ('closure',) and _PF is not None:
         # opt.map(|_| expr): Some(expr) exactly when opt is Some (expr may only use captured values)
         opt, clo = t[2]
